@@ -359,6 +359,15 @@ class C20(Prop):
                               ({'explicit': None, 'env': '1.9'}, MB), ({'explicit': {'float': ['3', '2']}}, 3 * MB // 2)]:
                 cases.append(self.mk_trip(rng, {'hex': self.rand_content(rng, size).hex()}, lim, out={'hex': '00'},
                                           cassette=rng.choice(['mem', 'file', 's3'])))
+        # 4b. files of tens / hundreds of KB below the limit, with real content (block-wise readers / encoders: sizes around
+        # multiples of 2^16 and of 3)
+        medium = [65535, 65536, 65537, 3 * 65536 + 1, 100000] if quick else \
+            [65535, 65536, 65537, 2 * 65536, 3 * 65536 - 1, 3 * 65536, 3 * 65536 + 1, 100000, 200001, 8191, 8192, 8193,
+             16385, 32769, 49153, 131071, 131073, 262145, 300000, 524289]
+        for size in medium:
+            lim = rng.choice([{'explicit': None, 'env': None}, {'explicit': {'int': 1}}, {'explicit': None, 'env': '2.5'}])
+            cases.append(self.mk_trip(rng, {'hex': rng.randbytes(size).hex()}, lim, out={'hex': rng.randbytes(size // 2 + 1).hex()},
+                                      cassette=rng.choice(['mem', 'file', 's3'])))
         # 5. calls that do not name a usable path
         for _ in range(6 if quick else 60):
             lim, nb = self.rand_limit(rng)
